@@ -16,12 +16,15 @@ LEDGER_PRELUDE = (
 )
 
 
+MUT_BINDINGS = False      # flavour "mutbind": every binding is written `mut aK`
+
+
 def pattern_list(r):
     """(pattern text pieces, binding expressions yielding Vec<u32> of ids + intact flags)"""
     pats, binds = [], []
     for q, p in enumerate(r["pats"]):
         if p == "b":
-            pats.append("a%d" % q)
+            pats.append(("mut a%d" if MUT_BINDINGS else "a%d") % q)
             binds.append("ids.push(a%d.id); ok &= a%d.intact();" % (q, q))
         elif p == "u":
             pats.append("_")
@@ -35,8 +38,11 @@ def pattern_list(r):
 
 def make(r, flavor="plain", elem="L", mk="L::new()", refmut=False):
     """Returns (items, stmt, binds): type declarations, the let+destructure! statement, binding observers."""
+    global MUT_BINDINGS
     sh, n = r["shape"], r["n"]
+    MUT_BINDINGS = flavor == "mutbind"
     pats, binds = pattern_list(r)
+    MUT_BINDINGS = False
     ref = ("&mut " if refmut else "&") if r["isref"] else ""
     items = ""
     ann = ""
